@@ -274,10 +274,19 @@ pub fn exec_in_subprocess(check_id: &str, plan: &Value) -> Result<Option<Violati
         .stderr(Stdio::null())
         .spawn()
         .map_err(|e| e.to_string())?;
-    {
-        let mut si = ch.stdin.take().unwrap();
-        si.write_all(serde_json::to_string(plan).unwrap().as_bytes()).map_err(|e| e.to_string())?;
-    }
+    // feed the plan and drain the output on separate threads: neither side may block on a full pipe
+    let mut si = ch.stdin.take().unwrap();
+    let plan_bytes = serde_json::to_string(plan).unwrap().into_bytes();
+    let writer = std::thread::spawn(move || {
+        let _ = si.write_all(&plan_bytes);
+    });
+    let mut so = ch.stdout.take().unwrap();
+    let reader = std::thread::spawn(move || {
+        use std::io::Read;
+        let mut buf = Vec::new();
+        let _ = so.read_to_end(&mut buf);
+        buf
+    });
     let t0 = Instant::now();
     loop {
         match ch.try_wait() {
@@ -293,8 +302,10 @@ pub fn exec_in_subprocess(check_id: &str, plan: &Value) -> Result<Option<Violati
             Err(e) => return Err(e.to_string()),
         }
     }
-    let out = ch.wait_with_output().map_err(|e| e.to_string())?;
-    let s = String::from_utf8_lossy(&out.stdout);
+    let status = ch.wait().map_err(|e| e.to_string())?;
+    let _ = writer.join();
+    let stdout = reader.join().unwrap_or_default();
+    let s = String::from_utf8_lossy(&stdout);
     for line in s.lines() {
         if let Some(rest) = line.strip_prefix("X ") {
             let v: Value = serde_json::from_str(rest).map_err(|e| e.to_string())?;
@@ -308,8 +319,8 @@ pub fn exec_in_subprocess(check_id: &str, plan: &Value) -> Result<Option<Violati
             return Ok(Some(viol));
         }
     }
-    if !out.status.success() {
-        return Ok(Some(Violation::new("abort", "abort", format!("process died executing the plan: {:?}", out.status))));
+    if !status.success() {
+        return Ok(Some(Violation::new("abort", "abort", format!("process died executing the plan: {status:?}"))));
     }
     Err("exec-plan produced no result line".into())
 }
